@@ -44,7 +44,7 @@ class C17(Prop):
         first = rng.choice([0, 3, 8, 9])        # 8, 9: the step number gains a digit inside the trace
         nr = rng.choice([1, 2, 3])
         case: Dict[str, Any] = {"control": _mk_set(rng, nr, steps, first, 0)}
-        mode = rng.choice(["other", "other", "self2", "sameobj", "shrunk"])
+        mode = rng.choice(["other", "other", "self2", "sameobj", "shrunk", "shrunk"])
         case["mode"] = mode
         if mode == "shrunk":
             # the same program with fewer calls: identical name sets on both sides, smaller counts and durations on the test side
@@ -80,7 +80,9 @@ class C17(Prop):
             iters = None if it == "default" else rng.choice(its) if it == "one" else sorted(rng.sample(its, rng.randint(1, len(its))))
             return ranks, iters
         case["csel"] = sel(nr, steps, first)
-        if mode == "other":
+        if case.get("shrunk"):
+            case["tsel"] = case["csel"]          # the same ranks and iterations on both sides: identical name sets, smaller numbers
+        elif mode == "other":
             t0 = case["test"][0]
             tsteps = sorted(int(e["name"].split("#")[1]) for e in t0["events"] if str(e.get("name", "")).startswith("ProfilerStep#"))
             case["tsel"] = sel(len(case["test"]), len(tsteps), tsteps[0])
